@@ -615,13 +615,22 @@ func RunConcurrent(s Scenario, c ConcConfig, r *rand.Rand, gid func() int, regis
 				}
 			}()
 			<-start
+			// what callers do with a shared function besides calling it: plan a redefinition, render the error;
+			// half of the goroutines plan first, so that planning overlaps with the first real executions
+			redefine := func() {
+				if nf, err := targets[k].Redefine(opts[k]...); err == nil {
+					_ = nf.Name()
+				}
+			}
+			if k%2 == 0 {
+				redefine()
+			}
 			res := targets[k].Call(opts[k]...)
-			// what callers do with a shared function besides calling it: render the error, plan a redefinition
 			if e := res.Err(); e != nil {
 				_ = e.Error()
 			}
-			if nf, err := targets[k].Redefine(opts[k]...); err == nil {
-				_ = nf.Name()
+			if k%2 == 1 {
+				redefine()
 			}
 			env.mu.Lock()
 			rets[k] = b.classify(res, k)
